@@ -469,6 +469,15 @@ def gen_filters(rng, store, req):
                     break
                 kind = rng.choice(kinds)
         fs.append(f if f is not None else gen_filter(rng, kind, store))
+    epoch_objs = [o for o in visible if o['idate'] == 0]
+    if epoch_objs and rng.random() < 0.6:
+        # an object created at the epoch and a date filter that does not fit it (the truthiness test on the Initial Date)
+        t = rng.choice(epoch_objs)
+        fs = [f for f in (gen_filter_matching(rng, rng.choice(['otype', 'uid', 'sensitive', 'policy']), t) for _ in range(rng.choice([0, 1, 2]))) if f]
+        fs.insert(rng.randint(0, len(fs)), ['date', rng.choice([1600000000, 5, -3, 1])])
+        if rng.random() < 0.3:
+            fs.append(['date', rng.choice([1600000001, 7])])
+        return fs
     r = rng.random()
     if r < 0.12:      # explicit date range / too many dates
         k = rng.choice([2, 2, 2, 3])
